@@ -1,6 +1,10 @@
 package harness
 
 import (
+	"runtime"
+	"strings"
+	"unicode/utf8"
+
 	"google.golang.org/grpc"
 
 	"github.com/fullstorydev/grpchan"
@@ -10,4 +14,32 @@ func newHandlerMap(desc *grpc.ServiceDesc, svc interface{}) grpchan.HandlerMap {
 	hm := grpchan.HandlerMap{}
 	hm.RegisterService(desc, svc)
 	return hm
+}
+
+func goroutineDump() string {
+	buf := make([]byte, 1<<20)
+	n := runtime.Stack(buf, true)
+	return string(buf[:n])
+}
+
+// sanitizeMsg is the replacement-character sanitising the standard transport applies to
+// status messages: every byte that is not part of a valid UTF-8 sequence becomes U+FFFD.
+func sanitizeMsg(s string) string {
+	var sb strings.Builder
+	for len(s) > 0 {
+		r, size := utf8.DecodeRuneInString(s)
+		if r == utf8.RuneError && size == 1 {
+			sb.WriteRune(utf8.RuneError)
+		} else {
+			sb.WriteString(s[:size])
+		}
+		s = s[size:]
+	}
+	out := sb.String()
+	// runs of replacement characters are collapsed: whether one invalid run becomes one or
+	// several U+FFFD is an encoder detail (strings.ToValidUTF8 vs grpc-go's per-byte rule)
+	for strings.Contains(out, "\uFFFD\uFFFD") {
+		out = strings.ReplaceAll(out, "\uFFFD\uFFFD", "\uFFFD")
+	}
+	return out
 }
